@@ -143,6 +143,8 @@ def dflt_spec(m):
     t = {"type": "object", "properties": {"mem": dflt_member_schema(m), "z": {"type": "string"}}}
     if m.get("required"):
         t["required"] = ["mem"]
+    if m.get("deny"):
+        t["additionalProperties"] = False
     s["components"]["schemas"]["T"] = t
     if "enum" in m["kind"] and m.get("ref"):
         s["components"]["schemas"]["Color"] = {"type": "string", "enum": list(m["kind"]["enum"])}
